@@ -428,6 +428,10 @@ def stepLine (_ : Unit) (ws : List String) : Unit × String :=
     match cfgOf (natOf client) with
     | none => bad i
     | some cfg => ((), i ++ " " ++ runLates cfg (natOf k) shape)
+  | ["knobs", i, client, n] =>
+    match cfgOf (natOf client) with
+    | none => bad i
+    | some cfg => ((), i ++ (if runSeq cfg (natOf n + 1) == "ok " ++ toString (natOf n + 1) then " ok" else " bad"))
   | ["batchtmo", i, client, _n] =>
     -- a timed-out entry is one call's `timeout`/`cleanup`; the other entries are served (`others_still_served`)
     match cfgOf (natOf client) with
